@@ -34,7 +34,7 @@ def main():
         "setup_cmd": "./check --setup",
         "hooks": {
             "guard": "CAPELLAMBSE_VERIF",
-            "enable": "none needed: no hooks are committed to /repo; the checks observe private state via name mangling and inject faults from the harness process (the check wrapper exports CAPELLAMBSE_VERIF=1, which nothing in /repo reads)",
+            "enable": "none needed: no hooks are committed to /repo; the checks observe private state through the pinned name-mangled names (falling back to recognition by shape when a private attribute was renamed) and inject faults from the harness process (the check wrapper exports CAPELLAMBSE_VERIF=1, which nothing in /repo reads)",
             "baseline_off_cmd": "/venv/bin/python harness/baseline.py",
             "source_commits": [],
             "add_only": True,
@@ -47,7 +47,7 @@ def main():
         }],
         "checks": checks,
         "not_applicable": na,
-        "notes": "Every check: regenerate Gen/ tables from /repo, lake build the property's theorems, audit axioms, run model-vs-implementation correspondence and the implementation-side monitor; see DESIGN.md §2.4 for the verdict rule. Exit 2 = infrastructure error (never a VIOLATION).",
+        "notes": "Every check: regenerate Gen/ tables from /repo, lake build the property's theorems, audit axioms, run model-vs-implementation correspondence and the implementation-side monitor; see DESIGN.md §2.4 for the verdict rule. The check itself runs in a supervised child interpreter: a child killed by SIGSEGV/SIGABRT while exercising the implementation, and a binding of the harness to private state that no longer exists, end as a broken-correspondence verdict (VIOLATION … no-failing-input-found, streams interpreter-crash / harness-binding). Exit 2 = infrastructure error (never a VIOLATION). seeded/ holds 140 independently seeded property-breaking changes with what catches them, refactors/ 30 behaviour-preserving rewrites the checks must not alarm on (DESIGN.md §12.5, §12.8; design/STATUS.md).",
     }
     (HERE.parent / "MANIFEST.json").write_text(json.dumps(man, indent=1) + "\n")
     print(f"{len(checks)} checks, {len(na)} not_applicable")
